@@ -60,24 +60,76 @@ NEEDS = {
  "C14-r2m2": ("purged chunk files are unlinked newest-first (pop)", "an unlink error or a crash between two unlinks of one removal batch"),
  "C15-r2m1": ("the eviction pass is capped at 32 entries per insert", "one insert owing more than 32 evictions (many pinned entries, boundary jumps over all of them)"),
  "C15-r2m2": ("eviction deferred to the end of an append batch and skipped on its error path", "multi-entry batch with a refused tail under a binding limit with evictable entries resident"),
+
+ # round 3
+ "C01-r3m1": ("set_last_evictable only ever raises the eviction boundary", "truncate into a synced closed chunk, lower-term re-append, a second rotation + sync (boundary should drop), appends under a small cache, read before the open chunk closes"),
+ "C01-r3m2": ("RaftLogState::purge decides by index whether to move `last` up to the purge id (off by one at equality)", "a purge exactly at the last stored index with a newer term"),
+ "C02-r3m1": ("open() drops a newest chunk that holds only its head State record", "a purge up to last whose record fills the open chunk, all closed chunks removed, flush, clean restart with nothing else written"),
+ "C02-r3m2": ("RaftLogWAL::new takes the maximum last log id over all closed chunks as the worker's first eviction boundary", "truncate + lower-term re-append across rotations, clean restart with a smaller cache, flush, append, read of the open chunk's pre-restart entries"),
+ "C03-r3m1": ("open() at once sends RemoveChunks for closed chunks that the replayed purge makes obsolete", "purge record written but not synced, process crash, restart (unlinks), power loss that drops the unsynced record, reopen"),
+ "C03-r3m2": ("the worker survives a failed write_all (reported like a failed sync) and keeps appending behind the hole / torn record", "a write error in one batch, later flushes acknowledged Ok, restart"),
+ "C04-r3m1": ("try_close_full_chunk takes the buffered tail before creating the new chunk file; a failed creation drops it", "a rotation whose chunk-file creation fails once, later appends retry it, flush acknowledged Ok"),
+ "C04-r3m2": ("FlushWorker::run re-enters run_inner after an I/O error instead of ending", "one write error in the worker, the condition clears, a later flush is acknowledged Ok"),
+ "C05-r3m1": ("open() unlinks chunks covered by the purged id before the newest chunk is taken over as open chunk", "purge up to last + flush, restart, crash before that instance's first flush, restart"),
+ "C05-r3m2": ("open() unlinks a non-newest chunk whose only record is its head State", "crash tearing the first record after a chunk head, then three restarts"),
+ "C06-r3m1": ("a 'committed index must not move back' rule added only where the Commit record is applied, not where it is checked", "a commit id greater by (term, index) but lower in index than the committed one"),
+ "C06-r3m2": ("check_vote and update_vote disagree on incomparable votes (journalled, then refused)", "a partially ordered Vote type and an incomparable vote (same term, other node)"),
+ "C07-r3m1": ("the worker survives a failed write; later syncs move the eviction boundary over the damaged chunk", "write fault, the chunk closes, a later flush succeeds, a small cache evicts, read of an entry of the failed request"),
+ "C07-r3m2": ("with no closed chunk the worker's first boundary falls back to the last log id known at open", "restart with exactly one chunk file holding entries, flush, appends under a small cache, read before that chunk closes"),
+ "C08-r3m1": ("open() drops a newest chunk that holds only its head State record (records.len() <= 1)", "purge up to last filling its chunk, flush + idle (older chunks removed), close and reopen"),
+ "C08-r3m2": ("new impl Drop for RaftLog hands the pending chunk removals to the worker without a flush", "a purge that makes closed chunks obsolete and is not followed by a flush, drop, reopen"),
+ "C09-r3m1": ("the chunk adjacency check runs after the 'newest chunk has no complete record' branch", "newest chunk left record-less by a crash AND the chunk file before it missing"),
+ "C09-r3m2": ("a record that fails its checksum is accepted as torn when everything from the next 4 KiB boundary to the end of the file is zero", "a tolerated zero tail reaching past the next 4 KiB boundary plus one altered byte in a complete record before it"),
+ "C10-r3m1": ("handle_record_error: the 'truncation disabled' refusal only covers UnexpectedEof; a zero tail falls through to truncation", "truncate_incomplete_record=false and a zero tail of >= 28 bytes at a record boundary"),
+ "C10-r3m2": ("Chunk::open refuses to cut a tail larger than chunk_max_size", "a torn / zero tail longer than the chunk_max_size in force for this open"),
+ "C11-r3m1": ("sync_all_files uses swap_remove(0): with three tracked files the write target becomes a closed chunk", "a rotation, a second rotation whose sync fails, a flush whose sync succeeds, more writes + flush"),
+ "C11-r3m2": ("rotation writes the closing chunk's buffered tail directly to the file, overtaking writes still queued at the worker", "an un-awaited flush still queued when a later write fills the chunk"),
+ "C12-r3m1": ("WALRecord::decode reads the 4-byte type tag with a single read() call", "a reader that splits the tag across two reads (BufReader at a buffer boundary: read_buffer_size smaller than a chunk)"),
+ "C12-r3m2": ("WALRecord::encode assembles records in a thread-local scratch buffer that is not cleared after a failed encode", "an encode that fails (writer full), then any other encode on that thread"),
+ "C13-r3m1": ("a FileLock clone (dup) is handed to the FlushWorker; its drop unlocks the shared flock when the worker ends", "the worker ends on an I/O error while the store is alive; then a second opener"),
+ "C13-r3m2": ("Dump releases its directory lock at the end of the first complete write_with", "a Dump that has dumped once and is kept alive; then another opener"),
+ "C14-r3m1": ("the worker discards its queue when the WAL is dropped (shutdown flag)", "unflushed operations that rotate a chunk after the last acknowledgement, drop, reopen"),
+ "C14-r3m2": ("new impl Drop for RaftLog sends pending chunk removals without the purge record", "everything acknowledged, then a purge passing the end of closed chunks without a flush, drop, reopen"),
+ "C15-r3m1": ("evictability judged by log index instead of log id (stat still reports the log-id boundary)", "truncate below a synced boundary, lower-term re-append running past its index, a binding limit or idle + drain"),
+ "C15-r3m2": ("truncation lowers a second, unreported eviction boundary (a fix of the known C07 defect that breaks C15 as stated)", "truncate into a synced chunk, re-appends at or below the stale boundary, binding limit or idle + drain"),
+ "C16-r3m1": ("load_log_payload reads from the open chunk when the chunk is not among the closed ones (offset underflow for a dropped chunk)", "purge mid-log with a higher term, chunk closes, flush, second purge dropping the chunk while entries stay indexed, read"),
+ "C16-r3m2": ("PayloadCache::insert does not add the size when the key is already cached", "the same log id appended twice via update_state rewinding last, second payload longer, then truncate / purge / evict"),
 }
 
 def main():
-    log = open(sys.argv[1]).read() if len(sys.argv) > 1 else ""
+    # logs: old format ('## <id>' then 'CAUGHT <ID> ...' lines) or the runners' format
+    # ('<mutant-id> CAUGHT|MISSED|INCONCLUSIVE(n) <ID> detail'); several logs may be given, later wins
     res = {}
-    cur = None
-    for line in log.splitlines():
-        m = re.match(r"## (\S+)", line)
-        if m:
-            cur = m.group(1); res[cur] = []; continue
-        m = re.match(r"(CAUGHT|MISSED|INCONCLUSIVE\S*)\s+(C\d+)\s*(.*)", line)
-        if m and cur:
-            res[cur].append({"check": m.group(2), "verdict": m.group(1), "detail": m.group(3)[:300]})
+    for path in sys.argv[1:]:
+        cur = None
+        for line in open(path).read().splitlines():
+            m = re.match(r"## (\S+)", line)
+            if m:
+                cur = m.group(1); continue
+            m = re.match(r"(C\d+-\S+)\s+(CAUGHT|MISSED|INCONCLUSIVE\S*)\s+(C\d+)\s*(.*)", line)
+            if m:
+                mid, verdict, chk, detail = m.groups()
+            else:
+                m = re.match(r"(CAUGHT|MISSED|INCONCLUSIVE\S*)\s+(C\d+)\s*(.*)", line)
+                if not (m and cur):
+                    continue
+                mid = cur; verdict, chk, detail = m.groups()
+            res.setdefault(mid, {})[chk] = {"check": chk, "verdict": verdict, "detail": detail[:300]}
+    n = 0
     for mid, (what, needs) in NEEDS.items():
         d = f"/verif/seeded/{mid}"
         if not os.path.isdir(d):
             continue
         demo = "demo_test.rs" if os.path.exists(f"{d}/demo_test.rs") else "demo.diff"
+        # results already recorded stay unless a newer run of the same check is in the logs
+        merged = {}
+        if os.path.exists(f"{d}/meta.json"):
+            try:
+                for r in json.load(open(f"{d}/meta.json"))["checks_run"]["results"]:
+                    merged[r["check"]] = r
+            except Exception:
+                pass
+        merged.update(res.get(mid, {}))
         meta = {
             "id": mid,
             "breaks_property": mid.split("-")[0],
@@ -90,11 +142,12 @@ def main():
                 "result": "A=pass B=fail C=pass",
             },
             "checks_run": {
-                "how": "/verif/tools_try_mutant.sh patch.diff <ID>: git -C /repo apply; VERIF_SEED=5 ./check <ID> quick; git -C /repo checkout -- .",
-                "results": res.get(mid, []),
+                "how": "tools_try_mutant.sh (git -C /repo apply; ./check <ID> quick; git -C /repo checkout -- .) or tools_par_mutants.sh (the same on a scratch worktree of /repo with the change applied and a copy of /verif pointing at it); VERIF_SEED=5; the latest run per check is kept",
+                "results": [merged[k] for k in sorted(merged)],
             },
         }
         json.dump(meta, open(f"{d}/meta.json", "w"), indent=1)
-    print("wrote", len(NEEDS), "meta files")
+        n += 1
+    print("wrote", n, "meta files")
 
 main()
